@@ -111,7 +111,9 @@ pub async fn request_certificate(
 		let new_order = NewOrder::new(&cert.identifiers);
 		let new_order = serde_json::to_string(&new_order)?;
 		let data_builder = set_data_builder!(account_s, endpoint_name, new_order.as_bytes()).await;
-		match http::new_order(&mut *(endpoint_s.write().await), &data_builder).await {
+		// The result is bound first so that the endpoint guard is released before the match arms run.
+		let new_order_res = http::new_order(&mut *(endpoint_s.write().await), &data_builder).await;
+		match new_order_res {
 			Ok((order, order_url)) => {
 				if let Some(e) = order.get_error() {
 					cert.warn(&e.prefix("Error").message);
